@@ -3,6 +3,7 @@ package controllerv1
 import (
 	"context"
 	"encoding/json"
+	"github.com/gorilla/mux"
 	"github.com/metrico/qryn/writer/utils/unmarshal"
 	"net/http"
 	"strings"
@@ -133,6 +134,9 @@ func TargetBulkV2(cfg MiddlewareConfig) func(w http.ResponseWriter, r *http.Requ
 
 func getRequestParams(r *http.Request) map[string]string {
 	params := make(map[string]string)
+	for key, value := range mux.Vars(r) {
+		params[key] = value
+	}
 	ctx := r.Context()
 	if ctxParams, ok := ctx.Value("params").(map[string]string); ok {
 		for key, value := range ctxParams {
